@@ -549,7 +549,7 @@ Inductive result :=
 | RNext (k v : value) (ok : bool)
 | RLen (n : nat)
 | RWalk (visited : list (value * value)) (s : wstatus)
-| REq (eq raweq : bool) (same : option bool).   (* same = None when a cannot be a key (nil, NaN) *)
+| REq (eq raweq : bool) (same sameBig : option bool).   (* None when a cannot be a key (nil, NaN); sameBig: in a table pre-filled with 24 string keys (hashed mode) *)
 
 Fixpoint walk (cap : nat) (t : table) (k : value) (j m p q : nat) (fresh : Z) (acc : list (value * value))
   : res (table * list (value * value) * wstatus) :=
@@ -569,6 +569,12 @@ Fixpoint walk (cap : nat) (t : table) (k : value) (j m p q : nat) (fresh : Z) (a
       walk c t' nk (S j) m p q fresh ((nk, nv) :: acc)
   end.
 
+(* the probe table of OEq: 24 string keys "pf00" .. "pf23" (hash part of 32 slots: hashed mode) *)
+Definition prefill_keys : list value :=
+  map (fun i => VStr [112%N; 102%N; N.of_nat (48 + i / 10); N.of_nat (48 + i mod 10)]) (seq 0 24).
+Fixpoint prefill (t : table) (ks : list value) : res table :=
+  match ks with [] => Ok t | k :: r => t1 <- tset t k (VBool true) ;; prefill t1 r end.
+
 Definition step (t : table) (o : op) : res (table * result) :=
   match o with
   | OSet k v => t' <- tset t k v ;; Ok (t', RUnit)
@@ -580,7 +586,10 @@ Definition step (t : table) (o : op) : res (table * result) :=
   | OEq a b =>
     same <- (if is_nil a || is_nan a then Ok None
              else t1 <- tset empty_table a (VBool true) ;; v <- tget t1 b ;; Ok (Some (negb (is_nil v)))) ;;
-    Ok (t, REq (equals a b) (raw_equal_go a b) same)
+    sameBig <- (if is_nil a || is_nan a then Ok None
+                else t0 <- prefill empty_table prefill_keys ;;
+                     t1 <- tset t0 a (VBool true) ;; v <- tget t1 b ;; Ok (Some (negb (is_nil v)))) ;;
+    Ok (t, REq (equals a b) (raw_equal_go a b) same sameBig)
   end.
 
 Fixpoint run (t : table) (os : list op) : res table :=
